@@ -5,7 +5,8 @@ Local Open Scope Z_scope.
 
 (** steer_law: the slew target and the programmed frequency, as the code computes them.
     target = clamp(-sign(e) * max(|e| - sigma*deadzone, 0) * 1e6 / steer_time, +-max_steer),
-    programmed frequency = cur + clamp_adjustment(cur, target - freq_estimate*1e6, max_freq_offset). *)
+    programmed frequency = clamp(cur + clamp_adjustment(cur, target - freq_estimate*1e6, bound), +-bound),
+    programmed only if finite (bound = max_freq_offset). *)
 Theorem steer_law cfg s :
   steer_target cfg s =
   (let e := base_offset (k_run s) in
@@ -18,7 +19,8 @@ Theorem steer_law cfg s :
    end)
   /\ forall cur t,
      freq_command cfg s cur t =
-     cur +. clamp_adjustment cur (t -. base_freq_offset (k_run s) *. c_1e6) (c_max_freq_offset cfg).
+     fclamp (cur +. clamp_adjustment cur (t -. base_freq_offset (k_run s) *. c_1e6) (c_max_freq_offset cfg))
+            (-. c_max_freq_offset cfg) (c_max_freq_offset cfg).
 Proof. split; reflexivity. Qed.
 
 (** While the offset estimate is below the step threshold the clock is only slewed:
@@ -30,12 +32,11 @@ Theorem slew_only dbg cfg s c :
                                        (c_log (fst (kalman_steer dbg cfg s c)))).
 Proof.
   intros H d. rewrite steer_decision, H.
-  destruct (steer_target cfg s) as [t|].
-  - destruct (k_cur s) as [cur|]; cbn [length].
-    + replace (S (length (c_log c)) - length (c_log c))%nat with 1%nat by lia.
-      cbn. intros [E | []]. discriminate E.
-    + rewrite Nat.sub_diag. cbn. auto.
+  destruct (steer_target cfg s) as [t|]; [|rewrite Nat.sub_diag; cbn; auto].
+  destruct (freq_cmds_at_most_one cfg s t (c_log c)) as [E | [f E]]; rewrite E.
   - rewrite Nat.sub_diag. cbn. auto.
+  - cbn [length]. replace (S (length (c_log c)) - length (c_log c))%nat with 1%nat by lia.
+    cbn. intros [E' | []]. discriminate E'.
 Qed.
 
 (** C02_grid: the faithful closed loop (plant model + Kalman model, debug build
